@@ -43,6 +43,7 @@ LEVEL = {
 LEVEL["decided"] += ' A call of a library helper that validates its argument (an explicit raise reachable for that call shape) counts as a point of failure in R04.1.'
 LEVEL["decided"] += " (R04.7) what Tee.__init__ builds is read off the evaluated heap: all children pull from the user's iterator itself."
 LEVEL["decided"] += ' (R04.9) handles as operation histories on the object model: groupby with a failing source / key, chain with a failing source, tee with every order of next / close on its children - the source(s) must be closed or exhausted when the failure surfaces / when every child is done. This reports three genuine defects of the pinned tree, recorded as open known findings F13-F15 (groupby and chain leave sources open when they raise; a tee child closed before it was ever advanced keeps its buffer registered). (R04.2) a scope around a library generator releases the arguments only if that generator releases what it is handed.'
+LEVEL["decided"] += ' R04.1: a generator expression / comprehension over the source handed to another aggregation is not a handover (closing the wrapper leaves the source open); a `break` in a closing loop before the element was closed leaves the loop incomplete.'
 LEVEL["technique"] += '; release histories with failing sources / callables over the object model'
 LEVEL["technique"] += '; evaluated tee construction over an object model'
 
